@@ -5,6 +5,7 @@
   history showing the violation).  Core Lean only.
 -/
 import Gts.Gen.Cli
+import Gts.Model.KeyEnc
 namespace Gts.CliTable
 open Gts.Gen.Cli
 
@@ -63,5 +64,37 @@ C14-e: `sort.Strings(*locstrs)` drops the order of the locators from the key of 
 def mutatedReport : List String :=
   commands.flatMap fun c => (c.decls.filter fun d => covered c d && d.uses.any mutators.contains).map fun d =>
     c.name ++ ":" ++ d.long
+
+/-- **the kind of a payload value as encoding/json sees it** (`Gts.KeyEnc.Kind`), read off the form of
+the tuple: a dereferenced option / positional variable has the type its declaration method returns
+(go-gts/flags: `Switch` → `*bool`, `String` → `*string`, `StringSlice` / `Extra` → `*[]string`); a declared
+variable handed over itself is such a pointer, written by json as what it points to; `String()`,
+`strings.Join`, `encodeToString` give a string; `h.Sum(nil)` a `[]byte`; `seqio.Detect` (`FileType`)
+and an indexed `[]rune` an integer.  `none`: a kind the encoding model `Gts/Model/KeyEnc.lean` does
+not cover. -/
+def valueKind (c : Command) (t : Tuple) : Option Gts.KeyEnc.Kind :=
+  let declKind (v : String) : Option Gts.KeyEnc.Kind :=
+    (c.decls.find? (·.var == v)).bind fun d =>
+      if d.kind == "Switch" then some .bool
+      else if d.kind == "String" then some .str
+      else if d.kind == "StringSlice" || d.kind == "Extra" then some .strs
+      else none
+  let ofVar : Option Gts.KeyEnc.Kind := match t.direct with
+    | [v] => declKind v
+    | _ => none
+  if t.form == "deref" then ofVar
+  else if t.form == "method:String" || t.form == "call:strings.Join" || t.form == "call:encodeToString" then
+    some .str
+  else if t.form == "ident" then
+    if t.prov == "decl" then ofVar
+    else if t.prov == "h.Sum" then some .bytes
+    else if t.prov == "seqio.Detect" || t.prov == "index" then some .int
+    else none
+  else none
+
+/-- `command:key:form:prov` of every payload tuple whose value kind the encoding model does not cover -/
+def valueKindReport : List String :=
+  commands.flatMap fun c => (c.payload.filter fun t => (valueKind c t).isNone).map fun t =>
+    c.name ++ ":" ++ t.key ++ ":" ++ t.form ++ ":" ++ t.prov
 
 end Gts.CliTable
